@@ -127,9 +127,9 @@ def gen_keepalive_stop(rng):
     virtual clock cannot serve: those histories are left out.)"""
     uid = Uid()
     clock = rng.choice([0, 10**6, 10**9])
-    mx = rng.choice([1, 2, 2, 4, 65536])
+    mx = rng.choice([1, 2, 2, 4])       # small: the model's pass fuel is max * keep-alive rounds
     mn = rng.choice([0, 0, 1, 2])
-    keep = rng.choice([1, 5, 3600]) * 10**9
+    keep = rng.choice([5, 20, 50]) * 10**6      # small: the model's fuel counts 1 ms naps
     ops, ntask = [], 0
     for _ in range(rng.randint(1, 4)):
         style = rng.choice(["plain", "mix"])
@@ -151,6 +151,49 @@ def gen_keepalive_stop(rng):
     ops.append({"op": "running", "p": 0})
     ops.append({"op": "submit", "p": 0, "body": [{"i": "return", "v": "1"}], "prio": None})
     return {"clock": str(clock), "pools": [[mn, mx, keep]], "ops": ops, "kind": "keepalive_stop", "stream": True}
+
+
+def gen_keepalive_run(rng):
+    """Pools with a keep-alive time, scheduled while RUNNING: idle workers nap (virtual clock, 1 ms steps,
+    hook H7) until their keep-alive runs out. The clock may move inside a pass: every later clock step jumps
+    far ahead of anything a pass can have reached."""
+    uid = Uid()
+    clock = rng.choice([0, 10**6, 10**9])
+    mx = rng.choice([1, 2, 2, 4])
+    keep = rng.choice([1, 3, 20, 50]) * 10**6
+    ops, ntask, cur = [], 0, clock
+    for _ in range(rng.randint(3, 14)):
+        k = rng.random()
+        if k < 0.35 or ntask == 0:
+            style = rng.choice(["plain", "mix", "mix"])
+            body = gen_task(rng, uid, cur, style)
+            ops.append({"op": "submit", "p": 0, "body": body, "prio": None if rng.random() < 0.6 else str(rng.choice([0, 1, -1]))})
+            ntask += 1
+        elif k < 0.65:
+            d = rng.random()
+            deadline = U64 if d < 0.5 else cur + rng.choice([1, 2, 5, 30, 70]) * 10**6
+            ops.append({"op": "pass", "p": 0, "deadline": str(deadline)})
+        elif k < 0.75:
+            cur += 10**9 + rng.choice([0, 1, 7]) * 10**6
+            ops.append({"op": "clock", "c": str(cur)})
+        elif k < 0.85:
+            t = rng.randrange(ntask)
+            ops.append({"op": rng.choice(["wait", "take"]), "p": 0, "t": t})
+        elif k < 0.9:
+            ops.append({"op": "cancel", "t": rng.randrange(ntask)})
+        else:
+            ops.append({"op": rng.choice(["running", "size", "state"]), "p": 0})
+    cur += 2 * 10**9
+    ops.append({"op": "clock", "c": str(cur)})
+    ops.append({"op": "pass", "p": 0, "deadline": str(U64)})
+    ops.append({"op": "running", "p": 0})
+    for t in range(ntask):
+        ops.append({"op": "wait", "p": 0, "t": t})
+    if rng.random() < 0.5:
+        ops.append({"op": "stop", "p": 0, "dur": str(3 * 10**6)})
+        ops.append({"op": "state", "p": 0})
+        ops.append({"op": "running", "p": 0})
+    return {"clock": str(clock), "pools": [[0, mx, keep]], "ops": ops, "kind": "keepalive_run", "stream": True}
 
 
 def gen_late_cancel(rng):
